@@ -18,12 +18,15 @@ VERIF = os.path.dirname(os.path.dirname(os.path.abspath(__file__)))
 SEEDED = os.path.join(VERIF, "seeded")
 
 
+BUDGET = None
+
+
 def run_check(prop, src, seed, runs=None):
     env = dict(os.environ, TLSIM_REPO_SRC=src, VERIF_SEED=str(seed))
     d = tempfile.mkdtemp(prefix="seeded-ev-", dir="/var/tmp")
     env["TLSIM_EVIDENCE_DIR"] = d
     env["TLSIM_REPLAY_DIR"] = os.path.join(d, "replays")
-    cmd = [os.path.join(VERIF, "check"), prop, "--tier", "quick"] + (["--runs", str(runs)] if runs else [])
+    cmd = [os.path.join(VERIF, "check"), prop, "--tier", "quick"] + (["--runs", str(runs)] if runs else []) + (["--budget", str(BUDGET)] if BUDGET else [])
     p = subprocess.run(cmd, env=env, capture_output=True, text=True, cwd=VERIF)
     sigs = []
     for ln in p.stdout.splitlines():
@@ -64,6 +67,10 @@ def rate_mode(only, n):
 
 
 def main(argv):
+    global BUDGET
+    if "--budget" in argv:
+        BUDGET = int(argv[argv.index("--budget") + 1])
+        argv = [a for i, a in enumerate(argv) if a != "--budget" and (i == 0 or argv[i - 1] != "--budget")]
     rate = int(argv[argv.index("--rate") + 1]) if "--rate" in argv else 0
     if rate:
         return rate_mode([a for a in argv if not a.startswith("--") and a != str(rate)], rate)
@@ -117,7 +124,9 @@ def main(argv):
             lines.append(f"| {name} | {r['property']} | - | **{r['error']}** | |")
             continue
         cb = r["caught_by"]
-        who = ", ".join(f"{p} ({v['seed']})" for p, v in cb.items()) or "**missed**"
+        meta_p = os.path.join(SEEDED, name, "meta.json")
+        note = json.load(open(meta_p)).get("not_expected_to_be_caught") if os.path.exists(meta_p) else None
+        who = ", ".join(f"{p} ({v['seed']})" for p, v in cb.items()) or ("not expected: outside the quantifier (see meta.json)" if note else "**missed**")
         sig = "; ".join(s for v in cb.values() for s in v.get("signatures", [])[:2])[:300]
         lines.append(f"| {name} | {r['property']} | {str(r.get('needs'))[:200]} | {who} | {sig} |")
     with open(os.path.join(SEEDED, "INDEX.md"), "w") as f:
